@@ -127,15 +127,16 @@ def attrValueExpr (v : Node) (lowered : Option Node) (st : St) : Node × St :=
     | .mk .jsxExprContainer _ [e] => (e, st)            -- incl. the empty expression `{}` (Expr::JSXEmpty)
     | v => (v, st.panic "unreachable: JSX attribute value literal must be string")
 
-def vmodelStep (o : Opts) (isComponent : Bool) (argument transformed modifiers : Option Node) (value : Node)
+/-- how a v-model argument is given: 0 = default (`modelValue`), 1 = static string, 2 = computed expression -/
+def vmodelArgKind (argument : Option Node) : Nat × String × Node :=
+  match argument with
+  | none => (0, "", nNull)
+  | some (.mk .null _ _) => (0, "", nNull)
+  | some (.mk .str (s :: _) _) => (1, s, nNull)
+  | some e => (2, "", e)
+
+def vmodelStepK (isComponent : Bool) (argKind : Nat × String × Node) (transformed modifiers : Option Node) (value : Node)
     (acc : AttrAcc) : AttrAcc :=
-  let argKind : Nat × String × Node :=     -- 0 = default, 1 = static string, 2 = computed
-    match argument with
-    | none => (0, "", nNull)
-    | some (.mk .null _ _) => (0, "", nNull)
-    | some (.mk .str (s :: _) _) => (1, s, nNull)
-    | some e => (2, "", e)
-  let _ := o
   let acc :=
     if isComponent then
       let (key, acc) :=
@@ -163,6 +164,11 @@ def vmodelStep (o : Opts) (isComponent : Bool) (argument transformed modifiers :
       (nStr ("onUpdate:" ++ s), { acc with dynamicProps := insertUnique ("onUpdate:" ++ s) acc.dynamicProps })
     | (_, _, e) => (nComputed (nBin "+" (nStr "onUpdate") e), { acc with hasDynamicKeys := true })
   { acc with props := acc.props ++ [nKV lkey (nModelListener value)] }
+
+def vmodelStep (o : Opts) (isComponent : Bool) (argument transformed modifiers : Option Node) (value : Node)
+    (acc : AttrAcc) : AttrAcc :=
+  let _ := o
+  vmodelStepK isComponent (vmodelArgKind argument) transformed modifiers value acc
 
 /-- hydration-event fact of a non-constant plain attribute -/
 def hydrationStep (isComponent : Bool) (attrName : String) (acc : AttrAcc) : AttrAcc :=
